@@ -87,6 +87,7 @@ type FileRestorer struct {
 	nodeDecl        map[*ast.Object]dst.Node // Objects that have a ast.Node Decl (look up after file has been rendered)
 	nodeData        map[*ast.Object]dst.Node // Objects that have a ast.Node Data (look up after file has been rendered)
 	cursorAtNewLine token.Pos                // The cursor position directly after adding a newline decoration (or a line comment which ends in a "\n"). If we're still at this cursor position when we add a line space, reduce the "\n" by one.
+	rawLiteralEnd   token.Pos                // The cursor position directly after the last raw string literal that spans several lines.
 	packageNames    map[string]string        // names in the code of all imported packages ("." for dot-imports)
 }
 
@@ -128,6 +129,7 @@ func (r *FileRestorer) RestoreFile(file *dst.File) (*ast.File, error) {
 	r.packageNames = map[string]string{}
 	r.comments = []*ast.CommentGroup{}
 	r.cursorAtNewLine = 0
+	r.rawLiteralEnd = 0
 	r.packageNames = map[string]string{}
 
 	r.base = r.Fset.Base() // base is the pos that the file will start at in the fset
@@ -629,6 +631,7 @@ func (r *FileRestorer) applyLiteral(text string) {
 			r.lines = append(r.lines, lineOffset)
 		}
 	}
+	r.rawLiteralEnd = r.cursor + token.Pos(len(text))
 }
 
 func (r *FileRestorer) hasCommentField(n ast.Node) bool {
@@ -703,9 +706,11 @@ func (r *FileRestorer) applyDecorations(node ast.Node, name string, decorations 
 
 		// if the decoration is a comment, add it and advance the cursor
 		if isComment {
-			if firstLine && end && r.hasCommentField(node) {
+			if firstLine && end && r.hasCommentField(node) && r.cursor != r.rawLiteralEnd {
 				// for comments on the same line as the end of a node that has a Comment field, we
-				// add the comment to the node instead of the file.
+				// add the comment to the node instead of the file. (The parser does this for a
+				// comment on the line where the last token of the node starts: not behind a raw
+				// string literal that began on an earlier line.)
 				r.addCommentField(node, r.cursor, d)
 			} else if group != nil && breaksSinceComment <= 1 {
 				group.List = append(group.List, &ast.Comment{Slash: r.cursor, Text: d})
